@@ -134,6 +134,15 @@ impl Check for C01 {
                 // the file-system path, fault-free
                 let fs = SimFs::new(&io);
                 let _g = fs.install();
+                // history step (1 run in 6): a different, small library was saved to the same destination and opened
+                // from it earlier on this thread; the judged calls below must be unaffected (outcome not judged)
+                if io.borrow_mut().ftape.chance(1, 6) {
+                    let mut other = GdsLibrary::new("an_earlier_library");
+                    other.structs.push(gds21::GdsStruct::new("earlier_cell"));
+                    let _ = guard(|| other.save(fs.sp(OUT)));
+                    let _ = guard(|| GdsLibrary::open(fs.sp(OUT)));
+                    out.probes.hit("history:another_library_saved_and_opened_at_the_same_path_first");
+                }
                 match guard(|| lib.save(fs.sp(OUT))) {
                     Err(p) => out.violation = Some(panic_violation("GdsLibrary::save", &p, json!({"library": lib_artefact(&lib)}))),
                     Ok(Err(e)) => out.violation = Some(viol("not-transparent", "save/fault-free/result".into(), format!("save failed without any fault although write succeeded: {}", e), &lib, Value::Null)),
